@@ -253,6 +253,9 @@ def registry_unit(ctx):
         def __init__(self):
             self.mapping = {}
 
+    from ujvc.units import real_method_fallback
+
+    R.__getattr__ = real_method_fallback(RG, "Registry", dict(env))     # private helper methods a refactoring may introduce (e.g. _register)
     for name in ("add", "source", "get", "__contains__", "__getitem__", "keys", "__len__"):
         e2 = dict(env)
         setattr(R, name, get(RG, f"Registry.{name}").compile_into(e2))
